@@ -47,6 +47,11 @@ def make(tid, items, refs, short=False):
 
     def body(ctx):
         r = prog.run(ctx, tpl)
+        if len(refs) > 1 and any(kn for (_i, _l, kn, _s) in refs):
+            # several references, one with a constant: keep label+-constant surely inside 0..65535 (k <= 999, gaps <= 300),
+            # so that nothing in the template may be rejected
+            ctx.assume(1100 <= r.vals["o"])
+            ctx.assume(r.vals["o"] <= 63000)
         info = {"lines": r.lines, "outcome": r.out.describe()}
         if r.out.kind in ("loop", "internal"):
             return True, info                    # C13's subject
@@ -200,6 +205,21 @@ def obligations(tier, seed):
             itemsb.append(("ins", "", "LDB", "FARB,PCR"))
         itemsb.append(("ins", "P0", "LDA", "NEARB,PCR"))
         multi["chainb%d" % kchain] = (itemsb, [(5 + kchain, "NEARB", None, 1)] + [(5 + j, "FARB", None, 1) for j in range(kchain)])
+    # a label+-constant target with other, not yet sized PCR statements between source and target (the span estimate is
+    # only a bound there, and the constant moves the displacement across the 8/16-bit limit in either direction)
+    for nb in (1, 3):
+        for sgn, opn in ((-1, "T-{k},PCR"), (1, "T+{k},PCR"), (-1, "[T-{k},PCR]")):
+            items = [("lit", "k", "D3"), ("org", "H4"), ("ins", "P1", "LEAX", opn)]
+            for j in range(nb):
+                items.append(("ins", "", "LEAY", "L0,PCR"))
+            items += [("ins", "L0", "NOP", ""), ("gap", "n", 300), ("ins", "T", "NOP", "")]
+            tag = "%s%s-over%d" % ("ind" if "[" in opn else "", "minus" if sgn < 0 else "plus", nb)
+            multi["fwdk-" + tag] = (items, [(1, "T", "k", sgn)] + [(2 + j, "L0", None, 1) for j in range(nb)])
+            itemsb = [("lit", "k", "D3"), ("org", "H4"), ("ins", "T", "NOP", ""), ("gap", "n", 300)]
+            for j in range(nb):
+                itemsb.append(("ins", "", "LEAY", "L9,PCR"))
+            itemsb += [("ins", "P1", "LEAX", opn), ("ins", "L9", "NOP", "")]
+            multi["bwdk-" + tag] = (itemsb, [(3 + nb, "T", "k", sgn)] + [(3 + j, "L9", None, 1) for j in range(nb)])
     for name, (items, refs) in multi.items():
         # the "lit" items must precede their use but not shift ins indices: prog.run handles lit first
         lits = [it for it in items if it[0] == "lit"]
